@@ -25,7 +25,8 @@ Inductive mutation : Type :=
 | MRtag (cls : N)
 | MVersion (v : N)
 | MAkeDamage (field : N)   (* AKE message: field-th component damaged *)
-| MAkeGroup (v : N).       (* DH-Key: g^y replaced by the out-of-range value number v (0, 1, p-1, p, p+1) *)
+| MAkeGroup (v : N)        (* DH-Key: g^y replaced by the out-of-range value number v (0, 1, p-1, p, p+1) *)
+| MImpersonate (victim : N). (* Reveal-Signature: public key inside X_B replaced by the victim's, MAC recomputed with m2 *)
 
 Record sys := {
   s_convs : list conv;                (* index = party number - 1 *)
@@ -82,6 +83,10 @@ Definition mut_ake (m : mutation) (b : akebody) : akebody :=
   | MAkeDamage _, BCommit r gx h => BCommit r gx (junk_base + 201)          (* hash damaged *)
   | MAkeDamage _, BKey gy => BKey (junk_base + 202)                         (* another in-range value *)
   | MAkeGroup v, BKey gy => BKey (junk_base + v)                            (* out of range *)
+  | MImpersonate v, BReveal r es mac =>
+      let es' := {| es_ckey := es_ckey es; es_pub := v; es_keyid := es_keyid es; es_signer := es_signer es;
+                    es_over := es_over es; es_parses := true |} in
+      BReveal r es' {| em_key := em_key mac; em_over := es'; em_intact := true |}
   | MAkeDamage 0, BReveal r es mac => BReveal (r + 7777) es mac             (* revealed key damaged *)
   | MAkeDamage 1, BReveal r es mac => BReveal r {| es_ckey := es_ckey es; es_pub := es_pub es; es_keyid := es_keyid es;
                                                     es_signer := es_signer es; es_over := es_over es; es_parses := false |} mac
